@@ -31,6 +31,10 @@
 (* by the harness, delivered volume accumulated as (KB, remainder).         *)
 EXTENDS Mon
 
+\* a DRIFT clause is recorded once per run of the monitor: drift must never crowd real violations out of the
+\* (capped) violation set
+Once(m, c, bad) == bad /\ ~\E v \in m.viol : v.clause = c
+
 RealCfg == [minPkts |-> 4, maxPkts |-> 20000, minBps |-> 65536, thresh |-> 3,
             slotMul |-> 2, slotAdd |-> 16]      \* "proportional": slots <= slotMul x span + slotAdd
 
@@ -84,7 +88,7 @@ SentStep(m, e, ln) ==
                         !.out = IF e.retrans /\ ~envP THEN Append(m.out, <<e.pn, e.bytes>>) ELSE m.out,
                         !.infl = IF e.retrans /\ ~envP THEN m.infl + e.bytes ELSE m.infl]
   IN [m1 EXCEPT !.viol = VAll(m.viol, e, ln,
-        << <<"DRIFT_EnvTime", envT>>, <<"DRIFT_EnvPn", envP>>, <<"DRIFT_EnvSize", envS>>, <<"DRIFT_EnvInflight", envI>> >>
+        << <<"DRIFT_EnvTime", Once(m, "DRIFT_EnvTime", envT)>>, <<"DRIFT_EnvPn", Once(m, "DRIFT_EnvPn", envP)>>, <<"DRIFT_EnvSize", Once(m, "DRIFT_EnvSize", envS)>>, <<"DRIFT_EnvInflight", Once(m, "DRIFT_EnvInflight", envI)>> >>
         \o OutClauses(m1, e, bad))]
 
 \* ---------- OnCongestionEventEx(prior, t, acked, lost) -------------------------
@@ -113,7 +117,7 @@ CongStep(m, e, ln) ==
                           !.dRem = IF inwin THEN tot % 1024 ELSE m.dRem,
                           !.sawLoss = m.sawLoss \/ Len(e.lost) > 0]
   IN [m1 EXCEPT !.viol = VAll(m.viol, e, ln,
-        << <<"DRIFT_EnvTime", envT>>, <<"DRIFT_EnvAck", envA>>, <<"DRIFT_EnvPrior", envP>>, <<"DRIFT_EnvThreshold", envK>> >>
+        << <<"DRIFT_EnvTime", Once(m, "DRIFT_EnvTime", envT)>>, <<"DRIFT_EnvAck", Once(m, "DRIFT_EnvAck", envA)>>, <<"DRIFT_EnvPrior", Once(m, "DRIFT_EnvPrior", envP)>>, <<"DRIFT_EnvThreshold", Once(m, "DRIFT_EnvThreshold", envK)>> >>
         \o OutClauses(m1, e, bad))]
 
 \* ---------- SetMaxDatagramSize(mds) -------------------------------------------
@@ -121,7 +125,7 @@ SetMDSStep(m, e, ln) ==
   LET envM == e.mds < m.mds
       bad  == m.envbad \/ envM
       m1   == [m EXCEPT !.mds = IF envM THEN m.mds ELSE e.mds, !.envbad = bad]
-  IN [m1 EXCEPT !.viol = VAll(m.viol, e, ln, << <<"DRIFT_EnvMDS", envM>> >> \o OutClauses(m1, e, bad))]
+  IN [m1 EXCEPT !.viol = VAll(m.viol, e, ln, << <<"DRIFT_EnvMDS", Once(m, "DRIFT_EnvMDS", envM)>> >> \o OutClauses(m1, e, bad))]
 
 \* ---------- end of a simulated run ---------------------------------------------
 RunEndStep(m, e, ln) ==
@@ -129,7 +133,7 @@ RunEndStep(m, e, ln) ==
       need == m.capKBps * durS            \* KB the path could carry in the measured window
   IN [m EXCEPT !.viol = VAll(m.viol, e, ln,
         << <<"Throughput", m.measure /\ ~m.envbad /\ ~m.sawLoss /\ durS >= 1 /\ 2 * m.dKB < need>>,
-           <<"DRIFT_EnvLossfree", m.measure /\ m.sawLoss>> >>)]
+           <<"DRIFT_EnvLossfree", Once(m, "DRIFT_EnvLossfree", m.measure /\ m.sawLoss)>> >>)]
 
 \* ---------- packet-number indexed queue (replayed TLC behaviours of Sys_PNQueue) ----
 \* e: op ("emplace" | "remove" | "upto" | "get"), pn, val, ok, got, first, last, present, slots  (state after the call)
@@ -151,8 +155,8 @@ QStep(m, e, ln) ==
   IN [m EXCEPT !.q = q2, !.qLast = lastA,
         !.viol = VAll(m.viol, e, ln,
           << <<"QSlots", e.slots > span>>,
-             <<"DRIFT_QResult", e.ok # r[2] \/ (e.op = "get" /\ e.got # r[3])>>,
-             <<"DRIFT_QState", e.present # Len(q2) \/ e.first # first \/ e.last # lastA \/ e.slots # span>> >>)]
+             <<"DRIFT_QResult", Once(m, "DRIFT_QResult", e.ok # r[2] \/ (e.op = "get" /\ e.got # r[3]))>>,
+             <<"DRIFT_QState", Once(m, "DRIFT_QState", e.present # Len(q2) \/ e.first # first \/ e.last # lastA \/ e.slots # span)>> >>)]
 
 MonStep(m, e, ln) ==
   CASE e.ev = "Reset"  -> [MonStart(RealCfg, e.mds) EXCEPT !.viol = m.viol, !.measure = e.measure,
